@@ -200,7 +200,11 @@ PROPS = {
     "C01": dict(
         coq_targets=["Props/C01.vo"],
         harness=[dict(pkg="h_agent", bin="c04", cases={"quick": 300, "thorough": 5000},
-                      checkers=["corr", "oracle"], timeout=2400)],
+                      checkers=["corr", "oracle"], timeout=2400),
+                 dict(pkg="h_agent", bin="c01p", cases={"quick": 400, "thorough": 6000},
+                      checkers=["corr", "oracle", "corr_bridge"], timeout=2400),
+                 dict(pkg="h_agent", bin="c01e", cases={"quick": 150, "thorough": 1500},
+                      checkers=["oracle"], timeout=3000)],
         allowed_axioms=[],
         trusted_base=[
             "lanes and remotes are numbers; value / supply bodies are byte strings (possibly empty), map events are entries of the C02 queue model rendered as Recon on the wire and parsed back by the harness; Links is abstracted to the set of (lane, remote) pairs (its bookkeeping is C20's subject)",
@@ -209,14 +213,18 @@ PROPS = {
             "hook: swimos_runtime feature `verif` WriteState wrapper over WriteTaskState (its operations one at a time) and re-exports of WriteTask, UplinkResponse, LaneData, RemoteSender",
         ],
         assumptions=[
-            "theorems cover the runtime side per remote (an event written for a value lane carries the lane's latest value, a newer value replaces the pending one); delivery of the last value to every linked remote at quiescence and several remotes are checked by correspondence + oracle on the real WriteTaskState (partial)",
-            "not modelled: the agent side of a value lane (ValueLane / ValueStore dirty flag, write_to_buffer, command decoding) and the task interleavings of the agent runtime"
+            "theorems cover the runtime side per remote for any mix of lanes (an event written for a value lane carries the lane's latest value, a newer value replaces the pending one) and one value lane end to end for any number of remotes (Model/ValuePipeline.v: the lane object's dirty flag and sync queue, write_to_buffer, response routing, each remote's uplink specialised to one value lane): every remote's frames are an ordered gap-tolerant view of the lane's history, and a linked remote ends with the current value at quiescence",
+            "the single-lane runtime model of Model/ValuePipeline.v is compared with the general write-task model of Model/Uplinks.v on every generated case (vp_bridge_bad) and both with the implementation; stale write-queue entries (which write nothing) are not represented in the specialised model",
+            "second harness (c01p): real ValueLane (handlers ValueLaneSet / ValueLaneSync, write_to_buffer) -> byte channel -> the runtime's real ResponseReceiver -> real WriteTaskState::handle_event -> WriteTask futures -> RawResponseMessageDecoder, in lock step with the model; third harness (c01e): the whole stack (AgentRouteTask::run_agent + AgentModel) under its own schedule with small buffers and slow readers, histories recorded by on_set, the view / current-value predicates of the theorems evaluated in Coq on what the remotes read",
+            "not modelled: command decoding; the task interleavings of the agent runtime and the agent's own loop (exercised by c01e only); `settled' in c01e is decided by the harness: the remote had read its linked frame before the lane's last change was commanded and has not asked to unlink since; quiescence is waited for at most 8 s"
         ],
     ),
     "C03": dict(
         coq_targets=["Props/C03.vo", "Model/MapLane.vo"],
         harness=[dict(pkg="h_agent", bin="c04", cases={"quick": 300, "thorough": 5000},
                       checkers=["corr", "oracle"], timeout=2400),
+                 dict(pkg="h_agent", bin="c01p", cases={"quick": 300, "thorough": 4000},
+                      checkers=["corr", "oracle", "corr_bridge"], timeout=2400),
                  dict(pkg="h_agent", bin="c02l", cases={"quick": 400, "thorough": 4000},
                       checkers=["corr", "oracle"], timeout=1800)],
         allowed_axioms=[],
